@@ -230,6 +230,7 @@ GENERIC = {
     "C06": dict(q=dict(soup_n=5000, trunc_n=400, mb_n=500, case_n=300), t=dict(soup_n=60000, trunc_n=5000, mb_n=5000, case_n=3000), events=False),
     "C07": dict(q=dict(soup_n=3000, trunc_n=300, mb_n=300, extra=dict(string_family=5000)), t=dict(soup_n=30000, trunc_n=3000, mb_n=3000, extra=dict(string_family=80000)), events="all"),
     "C08": dict(q=dict(soup_n=2000, extra=dict(num_family=6000)), t=dict(soup_n=20000, extra=dict(num_family=150000)), events=False),
+    "C11": dict(q=dict(soup_n=2000, extra=dict(oc_family=12000)), t=dict(soup_n=20000, extra=dict(oc_family=150000)), events=False),
     "C09": dict(q=dict(soup_n=5000, trunc_n=600), t=dict(soup_n=60000, trunc_n=6000, corpus_trunc=400), events=False),
     "C10": dict(q=dict(soup_n=5000, trunc_n=800), t=dict(soup_n=60000, trunc_n=8000, corpus_trunc=400), events=False),
 }
@@ -251,7 +252,10 @@ def run_generic(ctx):
     base_inputs(ctx, **sizes)
     if extra:
         for fam, n in extra.items():
-            ctx.add_cases(fam, getattr(gen, fam)(ctx.rng, n))
+            if fam == "oc_family" and not ctx.quick():
+                ctx.add_cases(fam, gen.oc_family(ctx.rng, n, exh_small=4))
+            else:
+                ctx.add_cases(fam, getattr(gen, fam)(ctx.rng, n))
     pick_samples(ctx)
     cases = list(ctx.cases.values())
     for variant in ("dbg", "rel"):
